@@ -8,15 +8,15 @@ from impl import cminx
 
 
 def run_main(sb_dir, case, variant):
-    base = os.path.join(sb_dir, 'zq9_' + variant); os.makedirs(base, exist_ok=True)
+    base = os.path.join(sb_dir, '+zq9_' + variant + '+'); os.makedirs(base, exist_ok=True)
     inp = case['inputs'][0]; st = case['settings']
-    p = os.path.join(base, 'loc', 'i0', inp['name'])
+    p = os.path.join(base, '+loc+', '+i0+', inp['name'])
     if inp['kind'] == 'dir': T.materialize(p, inp['children'])
     else:
         os.makedirs(os.path.dirname(p), exist_ok=True)
         with open(p, 'wb') as f: f.write(inp['content'].encode('utf-8'))
     home = os.path.join(base, 'home'); os.makedirs(os.path.join(home, '.config'), exist_ok=True)
-    work = os.path.join(base, 'work'); os.makedirs(work, exist_ok=True)
+    work = os.path.join(base, '+work+'); os.makedirs(work, exist_ok=True)
     sfile = os.path.join(base, 's.yaml')
     cfgd = {'input': {'auto_exclude_directories_without_cmake': st['auto_exclude']},
             'rst': {'module_path_separator': st.get('sep', '.'), 'file_extensions_in_titles': st.get('ext_titles', False),
